@@ -283,6 +283,14 @@ class TimedList(Generic[Item]):
     def __setitem__(self, key, value):
         self.df.iloc.__setitem__(key, value)
 
+    def __deepcopy__(self, memo):
+        # A deep copy of a DataFrame still shares the Python objects held in
+        # object columns (e.g. Quaver keysound lists), so copy those too.
+        df = self.df.copy(deep=True)
+        for col in df.columns[df.dtypes == object]:
+            df[col] = [deepcopy(v, memo) for v in df[col]]
+        return self.__class__(df)
+
     def deepcopy(self):
         return deepcopy(self)
 
